@@ -12,7 +12,9 @@ import (
 	sdk "github.com/cosmos/cosmos-sdk/types"
 	"pgregory.net/rapid"
 
+	authtypes "github.com/cosmos/cosmos-sdk/x/auth/types"
 	opchildtypes "github.com/initia-labs/OPinit/x/opchild/types"
+	ophosttypes "github.com/initia-labs/OPinit/x/ophost/types"
 
 	"verifharness/evid"
 	"verifharness/henv"
@@ -29,6 +31,9 @@ type c04World struct {
 	nextL1  uint64
 	records []l2Withdrawal
 	kinds   map[uint64]string // l2 sequence -> "user" | "refund"
+	// extraLevels > 0: the output that commits these withdrawals covers 2^extraLevels times as many
+	// withdrawals of other users (their subtrees are opaque hashes)
+	extraLevels int
 }
 
 func newC04World() *c04World {
@@ -108,7 +113,7 @@ func (w *c04World) settle(l2Block uint64) ([]c04Claimed, error) {
 		}
 		ts = append(ts, t)
 	}
-	o, r := tc.proposeTree(ts, l2Block)
+	o, r := tc.proposeDeepTree(ts, l2Block, w.extraLevels)
 	if !r.OK() {
 		return nil, fmt.Errorf("setup: propose failed: %v", r.Err)
 	}
@@ -128,9 +133,11 @@ func (w *c04World) settle(l2Block uint64) ([]c04Claimed, error) {
 		res := tc.l1.Deliver(claimMsg(tc.users[3].Str, t, o, o.Index, i))
 		if !res.OK() {
 			return nil, fmt.Errorf("%s withdrawal #%d (%s%s from %q to %s) recorded by L2 cannot be finalized on L1 (tree of %d leaves, position %d): %v",
-				w.kinds[x.Seq], x.Seq, x.Amount, t.Denom, truncStr(t.From, 30), t.To, len(ts), i, res.Err)
+				w.kinds[x.Seq], x.Seq, x.Amount, t.Denom, truncStr(t.From, 30), t.To, len(ts)<<uint(minInt(w.extraLevels, 40)), i, res.Err)
 		}
-		if !tc.l1.Balance(toAddr, t.Denom).Sub(before).Equal(x.Amount) {
+		if toAddr.Equals(sdk.AccAddress(ophosttypes.BridgeAddress(tc.bridgeID))) {
+			// paid from the escrow to the escrow: nothing to observe on the balance
+		} else if !tc.l1.Balance(toAddr, t.Denom).Sub(before).Equal(x.Amount) {
 			return nil, fmt.Errorf("claim of withdrawal #%d paid %s, recorded amount %s", x.Seq, tc.l1.Balance(toAddr, t.Denom).Sub(before), x.Amount)
 		}
 		out = append(out, c04Claimed{seq: x.Seq, kind: w.kinds[x.Seq], amount: x.Amount, selfPaired: self, treeSize: len(ts), pos: i})
@@ -140,7 +147,19 @@ func (w *c04World) settle(l2Block uint64) ([]c04Claimed, error) {
 
 func c04Recipient(rt *rapid.T, tc *twoChain) string {
 	hrp := sdk.GetConfig().GetBech32AccountAddrPrefix()
-	switch rapid.IntRange(0, 5).Draw(rt, "rcpt") {
+	switch rapid.IntRange(0, 6).Draw(rt, "rcpt") {
+	case 6:
+		// an address that is a module account on L1 (L2 cannot know which addresses L1 treats specially)
+		switch rapid.IntRange(0, 3).Draw(rt, "module") {
+		case 0:
+			return sdk.AccAddress(ophosttypes.BridgeAddress(tc.bridgeID)).String() // the bridge's own escrow
+		case 1:
+			return authtypes.NewModuleAddress(authtypes.FeeCollectorName).String()
+		case 2:
+			return authtypes.NewModuleAddress(ophosttypes.ModuleName).String()
+		default:
+			return authtypes.NewModuleAddress("gov").String()
+		}
 	case 5:
 		// the all-uppercase spelling of a bech32 address is valid too
 		return strings.ToUpper(tc.users[rapid.IntRange(1, 4).Draw(rt, "ru")].Str)
@@ -170,6 +189,8 @@ func TestC04Rapid(t *testing.T) {
 		if rapid.IntRange(0, 9).Draw(rt, "bigtree") == 0 {
 			nOps = 100
 		}
+		// one history in four is committed by an output that covers far more withdrawals than these
+		w.extraLevels = rapid.SampledFrom([]int{0, 0, 0, 0, 0, 0, 0, 0, 0, 3, 10, 13, 14, 15, 16, 17, 20, 29, 32, 40, 61, 64}).Draw(rt, "extraLevels")
 		repeatSteps(rt, nOps, func(i int) {
 			denom := rapid.SampledFrom(c04Denoms).Draw(rt, "denom")
 			amt, _ := math.NewIntFromString(rapid.SampledFrom(c04Amounts).Draw(rt, "amount"))
@@ -259,6 +280,12 @@ func TestC04Rapid(t *testing.T) {
 			shape += fmt.Sprintf("%s%d/%v/%d;", cl.kind[:1], cl.pos, cl.selfPaired, cl.amount.BigInt().BitLen())
 		}
 		c.Classf("tree-size-bucket/%d", bucket(len(w.records)))
+		if w.extraLevels > 0 && len(claimed) > 0 {
+			c.Classf("output-covers-2^%d-or-more-withdrawals", (w.extraLevels/8)*8)
+			if w.extraLevels >= 14 {
+				c.Class("claimed-from-output-with-more-than-2^16-withdrawals")
+			}
+		}
 		if nt {
 			c.NonTrivial()
 			c.Shape(shape)
